@@ -566,3 +566,22 @@ Example C13_source_front_to_back_nonvacuous :
   exists shown, X.Bridge.BrCapstoneC13.source_error_text 40 X.Bridge.BrCapstoneFront.FWit.txt (1, 6) [33] = X.File.SourceRules.ROk [X.File.SourceRules.VStr shown] /\
                 List.length shown = 32%nat.
 Proof. exact X.Bridge.BrCapstoneFront.src_front_to_back_hypotheses_inhabited. Qed.
+
+(* the location of the checker's first fault is no free-floating pair: it is the location of a NODE of the checked tree
+   (the faulty node, or the operand / argument / slice bound the violated rule names), reached by a path of child
+   indices - or the empty location.  With C13_source_front_to_back (instantiate `path`, `x'` with this node): the
+   reported position is the lexer position of that node's anchor token and its line is the one rendered. *)
+Theorem C13_first_fault_at_node : forall c cols e l, X.Ty.SoundProofs.first_fault c cols e l ->
+  l = noloc \/ exists path x, X.Parse.Printer.node_at e path = Some x /\ Ast.loc_of x = l.
+Proof. exact X.Bridge.BrCapstoneFront.first_fault_at_node. Qed.
+Print Assumptions C13_first_fault_at_node.
+
+Example C13_first_fault_at_node_nonvacuous :
+  X.Ty.SoundProofs.first_fault X.Ty.SoundProofs.SWit.c [] X.Ty.SoundProofs.LWit.e_closure (1, 11) /\
+  exists path x, X.Parse.Printer.node_at X.Ty.SoundProofs.LWit.e_closure path = Some x /\ Ast.loc_of x = (1, 11) /\ path <> [].
+Proof.
+  split; [exact X.Ty.SoundProofs.LWit.e_closure_fault|].
+  destruct (X.Bridge.BrCapstoneFront.first_fault_at_node _ _ _ _ X.Ty.SoundProofs.LWit.e_closure_fault) as [H|(path & x & H1 & H2)];
+    [discriminate H|].
+  exists path, x. split; [exact H1|]. split; [exact H2|]. intros ->. cbn in H1. injection H1 as <-. vm_compute in H2. discriminate H2.
+Qed.
